@@ -124,7 +124,10 @@ def _gen_op(rng):
         return {"op": "mutate_formula", "dst": rng.randrange(8),
                 "how": rng.choice(["add_clause", "header", "header_new",
                                    "getitem_append", "view_index_append",
-                                   "grow", "new_variable"])}
+                                   "grow", "new_variable", "header_std",
+                                   "header_delete", "header_replace"]),
+                "key": rng.choice(["description", "generator", "copyright",
+                                   "url"])}
     if r < 0.92:
         return {"op": "mutate_list", "lst": rng.randrange(4),
                 "how": rng.choice(["append", "negate", "reverse", "pop"])}
@@ -147,7 +150,11 @@ def _gen_chain(rng):
                     "seed": rng.randrange(2 ** 30)})
         if rng.random() < 0.15:
             ops.append({"op": "mutate_formula", "dst": rng.randrange(8),
-                        "how": rng.choice(["header_new", "add_clause"])})
+                        "how": rng.choice(["header_new", "add_clause",
+                                           "header_std", "header_delete",
+                                           "header_replace"]),
+                        "key": rng.choice(["description", "generator",
+                                           "copyright", "url"])})
     return {"formulas": [{"n": n, "clauses": clauses, "class": "CNF",
                           "named": rng.random() < 0.3,
                           "description": rng.choice([None, "chain base"])}],
@@ -167,6 +174,8 @@ def generate(rng, config):
                        "dag": [registry.g_dag(rng, 5)],
                        "bipartite": [registry.g_bip(rng, 4, 4, lmin=1)]},
             "nx": rng.random() < 0.3,
+            "nxd": rng.random() < 0.25,
+            "nxb": rng.choice([None, None, None, "int", "str"]),
             "lists": [[rng.choice([1, -1]) * rng.randint(1, 5)
                        for _ in range(rng.randint(0, 4))],
                       [rng.randint(0, 1) for _ in range(rng.randint(0, 6))],
@@ -191,10 +200,14 @@ def snap_formula(F):
 
 def snap_graph(G):
     if isinstance(G, networkx.Graph):
-        return ("nx", G.is_directed(), sorted(G.nodes(data=True),
-                                             key=lambda x: repr(x)),
-                sorted(G.edges(data=True), key=lambda x: repr(x)),
-                getattr(G, "name", None))
+        return ("nx", G.is_directed(),
+                copy.deepcopy(sorted(G.nodes(data=True),
+                                     key=lambda x: repr(x))),
+                copy.deepcopy(sorted(G.edges(data=True),
+                                     key=lambda x: repr(x))),
+                copy.deepcopy(dict(G.graph)), list(G.nodes()),
+                [type(d.get("bipartite")).__name__
+                 for _, d in G.nodes(data=True)])
     if G.is_bipartite():
         return ("bip", G.left_order(), G.right_order(),
                 [tuple(e) for e in G.edges()], G.name,
@@ -264,10 +277,12 @@ def execute(case, ctx):
         gidx["simple"].append(pool.add(
             "graph", registry.mk_simple(g, nx=case["nx"]), "simple graph"))
     for g in case["graphs"]["dag"]:
-        gidx["dag"].append(pool.add("graph", registry.mk_dag(g), "dag"))
+        gidx["dag"].append(pool.add(
+            "graph", registry.mk_dag(g, nx=case.get("nxd", False)), "dag"))
     for g in case["graphs"]["bipartite"]:
-        gidx["bipartite"].append(pool.add("graph", registry.mk_bip(g),
-                                          "bipartite graph"))
+        gidx["bipartite"].append(pool.add(
+            "graph", registry.mk_bip(g, nx=case.get("nxb")),
+            "bipartite graph"))
     lidx = [pool.add("list", list(l), "list#%d" % i)
             for i, l in enumerate(case["lists"])]
     step = [0, None]
@@ -316,7 +331,7 @@ def execute(case, ctx):
             if "B" in tp:
                 # the compression graph is an argument too: it joins the
                 # pool and must come back unchanged
-                B = registry.mk_bip(tp["B"])
+                B = registry.mk_bip(tp["B"], nx=case.get("nxb"))
                 pool.add("graph", B, "compression graph@%d" % si)
                 fn = "xor" if tname == "xorcomp" else "maj"
                 with installed(SimRandom(op["seed"])):
@@ -466,6 +481,14 @@ def execute(case, ctx):
                 F.header["description"] = "edited at step %d" % si
             elif how == "header_new":
                 F.header["note %d" % si] = "x"
+            elif how == "header_std":
+                # the header is the caller's: a standard entry is edited
+                F.header[op.get("key", "generator")] = "by hand %d" % si
+            elif how == "header_delete":
+                F.header.pop(op.get("key", "url"), None)
+            elif how == "header_replace":
+                items = list(F.header.items())
+                F.header = type(F.header)(reversed(items))
             elif how == "getitem_append":
                 if len(F):
                     c = F[0]
@@ -508,7 +531,8 @@ def execute(case, ctx):
             target = {gi}
             try:
                 if isinstance(G, networkx.Graph):
-                    G.add_edge(1, max(G.nodes() or [1]))
+                    if len(G) >= 2:
+                        G.add_edge(1, max(G.nodes()))
                     G.remove_edges_from(networkx.selfloop_edges(G))
                 elif G.is_bipartite():
                     G.add_edge(1, G.right_order())
@@ -597,7 +621,8 @@ def _check_provenance(src_snap, G, tname, si, op):
         elif gv != v:
             bad("earlier-entry-changed", "%r: %r became %r" % (k, v, gv))
     ts = [k for k, _ in got if k.startswith("transformation ")]
-    if ts != ["transformation %d" % i for i in range(1, nsrc + 2)]:
+    src_ts = [k for k, _ in src_header if k.startswith("transformation ")]
+    if ts != src_ts + [want_key]:
         bad("order", "transformation entries %r" % ts)
     if G.header is None or not isinstance(dict(got)[want_key], str):
         bad("entry-type", "%r" % dict(got)[want_key])
